@@ -150,6 +150,13 @@ def accessor(ctx, letters):
             sgda = xr.DataArray(sg.reshape(32, 32), dims=("y", "x"), coords={"y": np.arange(32), "x": np.arange(32)})
             res = da.hdc.whit.whits(nodata=nd, sg=sgda, p=p_env)
             _cmp_acc(ctx, sub, res, exp.reshape(32, 32, n), ("y", "x", "time"), f"whits(sg=<raster rot {rot}>, p={p_env})", y, lam, p_env, nd)
+            # the sgrid is matched to the pixels by dimension name, not by position: hand it over transposed, and
+            # hand the cube over in another dimension order
+            res_t = da.hdc.whit.whits(nodata=nd, sg=sgda.transpose("x", "y"), p=p_env)
+            _cmp_acc(ctx, sub, res_t, exp.reshape(32, 32, n), ("y", "x", "time"), f"whits(sg=<raster rot {rot} given as (x,y)>, p={p_env})", y, lam, p_env, nd)
+            res_o = da.transpose("x", "time", "y").hdc.whit.whits(nodata=nd, sg=sgda, p=p_env)
+            _cmp_acc(ctx, sub, res_o, exp.reshape(32, 32, n), ("y", "x", "time"), f"whits(sg=<raster rot {rot}>, p={p_env}) on a (x,time,y) cube", y, lam, p_env, nd)
+            ctx.count(sub, evaluations=2 * N)
             # the kernel result itself against the reference (lambda per pixel; -inf -> passthrough)
             fin = np.isfinite(sg)
             check_fixed(variant, y[fin], valid[fin], float(nd), lam[fin], p_env, ctx, "accessor_sgrid_reference")
@@ -206,7 +213,7 @@ def long_series(n):
 def long_family(ctx):
     sub = "long_family"
     nd = -3000.0
-    sizes = (50, 100, 400) if ctx.thorough() else (50, 100)
+    sizes = (50, 100, 400) if ctx.thorough() else (50, 100, 400)
     for n in sizes:
         t = np.arange(n)
         base = long_series(n)
@@ -220,8 +227,8 @@ def long_family(ctx):
         for lname, valid in layouts.items():
             y = np.where(valid, base, nd)[None, :]
             v = valid[None, :]
-            for lam in (1e-3, 1.0, 100.0, 1e4):
-                for p_env in (None, 0.1, 0.9):
+            for lam in (1e-3, 1.0, 100.0, 10 ** 2.8, 1e4):
+                for p_env in (None, 0.1, 0.9, 0.01, 0.99, 0.999):
                     variant = "ws2dgu" if p_env is None else "ws2dpgu"
                     check_fixed(variant, y, v, nd, lam, p_env, ctx, sub)
                     ctx.count(sub, nontrivial=int(lname != "all"))
